@@ -5,24 +5,24 @@ import json, os
 H = []
 
 QUICK = {
-    "C01": ["fub_poll_c2", "fub_poll_c2_inflight", "fub_poll_c2_handles", "fub_wake_c2", "fub_wake_c2_inflight", "fub_push_c2", "fub_poll_budget", "fub_poll_budget_61", "mb_poll_c2"],
-    "C02": ["fub_poll_c2", "fub_push_c2", "fu_poll_2", "fu_push_12", "fob_poll_c2"],
-    "C04": ["fob_poll_c2", "fob_poll_c2_p0", "fob_push_c2", "ad_bo_n2_p0", "ja_poll_n2"],
+    "C01": ["fub_poll_c2", "fub_poll_c2_inflight", "fub_poll_c2_handles", "fub_wake_c2", "fub_wake_c2_inflight", "fub_push_c2", "fub_poll_budget", "fub_poll_budget_many", "mb_poll_c2", "fu_cur_12_c1", "wl_fifo_c2"],
+    "C02": ["fub_poll_c2", "fub_push_c2", "fu_poll_2", "fu_push_12", "fob_poll_c2", "fu_cur_12_c1", "fu_cur_12_c0"],
+    "C04": ["fob_poll_c2", "fob_poll_c2_p0", "fob_push_c2", "fo_observe_c2", "ad_bo_n2_p0", "ja_poll_n2"],
     "C05": ["fub_poll_c2", "mb_poll_c2", "ja_poll_n2", "fub_poll_c2_handles"],
     "C06": ["fub_drop_c2", "ja_poll_n2", "tja_poll_n2", "mb_poll_c2"],
     "C07": ["ja_poll_n2", "tja_poll_n2"],
-    "C08": ["fub_poll_c2", "fu_poll_2", "fu_push_12", "fu_push_2"],
-    "C09": ["ad_bu_n2", "ad_tbu_n2", "ad_fe_n1", "ad_bo_n2_p0"],
-    "C10": ["ad_bu_n2", "ad_tbu_n2", "ad_fe_n1", "ad_fe_n0", "ad_bo_n2_p0"],
+    "C08": ["fub_poll_c2", "fu_poll_2", "fu_push_12", "fu_push_2", "fu_cur_12_c0"],
+    "C09": ["ad_bu_n2", "ad_bu_n3", "ad_tbu_n2", "ad_fe_n1", "ad_bo_n2_p0"],
+    "C10": ["ad_bu_n2", "ad_tbu_n2", "ad_fe_n1", "ad_fe_n0", "ad_bo_n2_p0", "ad_bo_n2"],
     "C11": ["mb_poll_c2", "mu_poll_12_c0", "mu_poll_12_c1"],
-    "C12": ["fub_poll_c2", "fub_wake_c2", "fub_push_c2", "mb_poll_c2"],
-    "C13": ["fub_poll_c2", "fub_poll_budget", "fub_poll_budget_61", "mu_poll_12_c0", "mu_poll_12_c1", "fu_poll_2"],
-    "C14": ["fub_poll_c2_quiet", "fub_wake_c2", "fub_push_c2", "fub_drop_c2"],
+    "C12": ["fub_poll_c2", "fub_wake_c2", "fub_push_c2", "mb_poll_c2", "fub_poll_budget_61"],
+    "C13": ["fub_poll_c2", "fub_poll_budget", "fub_poll_budget_61", "fub_poll_budget_many", "mu_poll_12_c0", "mu_poll_12_c1", "fu_poll_2"],
+    "C14": ["fub_poll_c2_quiet", "fub_wake_c2", "fub_push_c2", "fub_drop_c2", "fu_cur_12_c0", "fub_poll_budget_61"],
     "C15": ["fub_poll_c2", "fub_push_c2", "fub_push_c0", "fob_push_c2", "fob_new", "fo_new", "fu_push_12"],
     "C16": ["ad_bo_n2", "ad_tbo_n2"],
-    "C17": ["fub_poll_c2", "fob_poll_c2", "ad_bu_n2", "ad_tbu_n2", "ad_bo_n2"],
-    "C03": ["wl_shape0_c2", "wl_shape1_c2", "wl_shape2_c2", "wl_fifo_c2"],
-    "C18": ["fub_poll_c2", "fub_push_c2", "fub_wake_c2", "ja_poll_n2", "fu_push_12", "fu_poll_2", "ad_bu_n2"],
+    "C17": ["fub_poll_c2", "fob_poll_c2", "fo_observe_c2", "ad_bu_n2", "ad_tbu_n2", "ad_bo_n2"],
+    "C03": ["wl_shape0_c2", "wl_shape1_c2", "wl_shape2_c2", "wl_shape3_c2", "wl_fifo_c2"],
+    "C18": ["fub_poll_c2", "fub_push_c2", "fub_wake_c2", "ja_poll_n2", "fu_push_12", "fu_poll_2", "fu_rot_124_c0", "fu_rot_124_c1", "ad_bu_n2"],
 }
 
 def h(name, props, tiers, unwind=6, unwindset=None, covers=(), timeout=900, mem=8, layer="model",
@@ -67,6 +67,9 @@ h("fub_poll_budget_61", ["C13", "C01", "C14", "C12"], QT, unwind=6, unwindset={P
   covers=["cover:within_budget"], what=W_BUD, bounds="k = 61 (= budget)")
 h("fub_poll_budget_3", ["C13", "C14", "C12"], T, unwind=6, unwindset={POLL: 63}, timeout=1200,
   covers=["cover:within_budget"], what=W_BUD, bounds="k = 3")
+h("fub_poll_budget_many", ["C13", "C01"], QT, unwind=66, timeout=1200, covers=["cover:budget_exhausted"],
+  what="FuturesUnorderedBounded<Idle> capacity 62 with all 62 children held and queued (none wakes itself): the call stops after 61 child polls and must wake its task, because the child left in the queue has already been notified",
+  bounds="capacity 62, fully concrete state; every loop unwound 66")
 W_PUSH = "FuturesUnorderedBounded<Fut>: ONE try_push from an arbitrary INV pre-state (full or not, stale queue entry on the free slot or not)"
 h("fub_push_c2", ["C15", "C02", "C01", "C12", "C14", "C17", "C18"], QT, covers=["cover:push_ok", "cover:push_refused", "cover:push_reuses_stale_entry"],
   what=W_PUSH, bounds="capacity 2")
@@ -91,6 +94,15 @@ h("fu_poll_12", FU_POLL, QT, timeout=1800, mem=16, covers=["cover:yield", "cover
 h("fu_poll_12_c1", FU_POLL, T, timeout=1800, mem=16, covers=["cover:yield", "cover:pending_two_groups"], what=W_FU, bounds="capacities (1,2); cursor 1")
 h("fu_poll_12_c2", FU_POLL, T, timeout=1800, mem=16, covers=["cover:yield"], what=W_FU, bounds="capacities (1,2); cursor 2 (= wraps)")
 h("fu_poll_12_quiet", ["C14"], T, timeout=1800, mem=16, covers=["cover:pending_two_groups"], what=W_FU + "; quiet environment", bounds="capacities (1,2); cursor 0")
+W_CUR = W_FU + "; only the listed groups have queued children (the others answer Pending at once): cursor / group-list logic at low cost"
+h("fu_cur_12_c1", ["C01", "C02", "C13", "C14", "C18", "C08"], QT, timeout=1500, covers=["cover:yield", "cover:pending_two_groups"], what=W_CUR, bounds="capacities (1,2); cursor 1; <=1 queued child per group; no self-wake")
+h("fu_cur_12_c0", ["C01", "C02", "C13", "C14", "C18", "C08"], QT, timeout=1500, covers=["cover:yield", "cover:pending_two_groups", "cover:none_two_groups"], what=W_CUR, bounds="capacities (1,2); cursor 0; <=1 queued child per group; no self-wake")
+h("fu_cur_124_c0", ["C18", "C02", "C01", "C08"], T, unwind=7, timeout=2400, mem=30, covers=["cover:yield"], what=W_CUR, bounds="THREE groups, capacities (1,2,4); cursor 0; only group 0 has a queued child")
+W_ROT = ("FuturesUnordered<Fut> with THREE groups (1,2,4) in concrete inner states (one drained group at the cursor, one sleeping child in each other group): ONE poll_next; "
+         "the drained group is discarded, the others keep their order by capacity (the largest stays last and is never discarded), rem / cursor stay consistent")
+h("fu_rot_124_c0", ["C18", "C02", "C13", "C15"], QT, unwind=7, covers=["cover:group_discarded"], what=W_ROT, bounds="groups (1,2,4); cursor 0 = the drained smallest group")
+h("fu_rot_124_c1", ["C18", "C02", "C13", "C15"], QT, unwind=7, covers=["cover:group_discarded"], what=W_ROT, bounds="groups (1,2,4); cursor 1 = the drained middle group")
+h("fu_cur_124_c2", ["C18", "C02", "C01"], T, unwind=7, timeout=2400, mem=30, covers=["cover:yield"], what=W_CUR, bounds="three groups (1,2,4); cursor 2; only the last group has a queued child")
 W_FUP = "FuturesUnordered<Fut>: ONE push from an arbitrary INV_unbounded pre-state (last group full -> new group of twice the capacity)"
 h("fu_push_12", ["C15", "C02", "C08", "C18", "C01", "C12", "C14"], QT, covers=["cover:push_new_group", "cover:push_last_group"], what=W_FUP, bounds="capacities (1,2)")
 h("fu_push_2", ["C15", "C02", "C08", "C18"], QT, covers=["cover:push_new_group", "cover:push_last_group"], what=W_FUP, bounds="one group of capacity 2")
@@ -106,6 +118,9 @@ h("fob_poll_c2_p0", ["C04", "C02", "C15", "C17"], QT, unwindset=FOB_US, timeout=
   covers=["cover:yield_running", "cover:none", "cover:pending_parked_more"], what=W_FOB, bounds="capacity 2, no parked output")
 h("fob_poll_c2_p2", ["C04", "C02"], T, unwindset={"FuturesOrderedBounded.*poll_next#2": 3, POLL: 5, "binary_heap": 4}, timeout=2400, mem=20,
   covers=["cover:yield_parked"], what=W_FOB, bounds="capacity 2, 2 parked outputs, <=1 self-wake")
+h("fo_observe_c2", ["C04", "C15", "C17", "C12"], QT, covers=["cover:push_front", "cover:push_back"],
+  what="FuturesOrdered<Fut> (unbounded ordered queue, one inner group, symbolic 64-bit counters, one parked output): observers len / is_empty / size_hint / is_terminated against the ghost count, then ONE push_back / push_front (no poll: a poll of the unbounded ordered queue exceeds 40 GB in CBMC)",
+  bounds="one group of capacity 2, exactly 1 parked output")
 h("fob_push_c2", ["C04", "C15", "C02", "C12"], QT, covers=["cover:push_front", "cover:push_back", "cover:push_refused"],
   what="FuturesOrderedBounded<Fut>: ONE try_push_back / try_push_front from an arbitrary INV_ordered pre-state (symbolic 64-bit counters)",
   bounds="capacity 2, 1 parked output")
@@ -132,6 +147,8 @@ W_AD = ("ONE poll from an arbitrary pre-state: upstream present (arbitrary remai
         "in-flight collection in an arbitrary INV state; scripted upstream: item / Pending / end (/ error)")
 h("ad_bu_n2", ["C09", "C10", "C17", "C01", "C02", "C18"], QT, unwindset=AD_US, covers=["cover:item", "cover:pending", "cover:end"],
   what="buffered_unordered(2): " + W_AD, bounds="n=2; <=2 upstream items remaining")
+h("ad_bu_n3", ["C09", "C10", "C17"], QT, unwind=7, unwindset={POLL: 6}, timeout=1500, mem=12, covers=["cover:item", "cover:pending", "cover:end"],
+  what="buffered_unordered(3): " + W_AD, bounds="n=3; <=3 upstream items remaining")
 h("ad_bu_n1", ["C09", "C10", "C17"], T, unwindset=AD_US, covers=["cover:item", "cover:pending", "cover:end"],
   what="buffered_unordered(1): " + W_AD, bounds="n=1; <=1 self-wake")
 h("ad_tbu_n2", ["C09", "C10", "C17", "C18"], QT, unwindset=AD_US, covers=["cover:item", "cover:pending", "cover:end", "cover:upstream_err_keeps_inflight"],
@@ -152,11 +169,12 @@ h("ad_tbo_n2", ["C16", "C09", "C10", "C17"], QT, unwindset=BO_US, timeout=1200, 
   what="try_buffered_ordered(2): " + W_AD + "; 1 parked output", bounds="n=2")
 
 # ---------------------------------------------------------------- join_all
-JA_US = {POLL: 4, "JoinAll.*poll#0": 4, "TryJoinAll.*poll#1": 3, "drop_outputs#0": 3, "JoinAll<.*Drop>::drop#0": 3}
+JA_US = {POLL: 4, "JoinAll.*poll#0": 4, "JoinAll<.*Drop>::drop#0": 3}
+TJA_US = {POLL: 4, "TryJoinAll.*poll#0": 4, "TryJoinAll.*poll#1": 3, "drop_outputs#0": 3}
 h("ja_poll_n2", ["C06", "C07", "C04", "C05", "C18"], QT, unwindset=JA_US, covers=["cover:ready", "cover:pending_partial"],
   what="join_all of 2 inputs: ONE poll from an arbitrary INV_join pre-state (result slot written <=> input finished), then the result - or the still pending combinator - is dropped; outputs are drop-counted tokens",
   bounds="2 inputs")
-h("tja_poll_n2", ["C06", "C07", "C04", "C18"], QT, unwindset=JA_US, timeout=1500, mem=16, covers=["cover:ok", "cover:pending", "cover:poll_after_err", "cover:err_with_collected_outputs"],
+h("tja_poll_n2", ["C06", "C07", "C04", "C18"], QT, unwindset=TJA_US, timeout=1500, mem=16, covers=["cover:ok", "cover:pending", "cover:poll_after_err", "cover:err_with_collected_outputs"],
   what="try_join_all of 2 inputs: ONE poll from an arbitrary INV_join pre-state; after an Err the combinator is dropped or polled AGAIN",
   bounds="2 inputs")
 
@@ -173,6 +191,9 @@ for order, txt in ((0, "collection dropped first, wake_by_ref through the clone,
     for cap, tiers in ((2, QT),):
         h("wl_shape%d_c%d" % (order, cap), ["C03"], tiers, layer="real", checks="memsafe", unwind=4, unwindset=WL_US, timeout=1500, mem=14,
           covers=["cover:end"], what=W_WL + W_SH + "; order: " + txt, bounds="capacity %d (slot index symbolic); CAS/spin loops unwound 1 (sequential), unwinding assertions on" % cap)
+h("wl_shape3_c2", ["C03", "C14"], QT, layer="real", checks="memsafe", unwind=4, unwindset=WL_US, timeout=1500, mem=14, covers=["cover:end"],
+  what=W_WL + "as the lifecycle shapes, but the slot is ALREADY QUEUED when its waker is invoked by reference and then twice by value (each consumes a clone): redundant wakes still release their reference, never notify the task, and the block is released once",
+  bounds="capacity 2")
 h("wl_shape0_c1", ["C03"], T, layer="real", checks="memsafe", unwind=4, unwindset=WL_US, timeout=1500, mem=14, covers=["cover:end"], what=W_WL + W_SH, bounds="capacity 1")
 h("wl_shape0_c3", ["C03"], T, layer="real", checks="memsafe", unwind=5, unwindset=WL_US, timeout=2400, mem=20, covers=["cover:end"], what=W_WL + W_SH, bounds="capacity 3")
 h("wl_shape2_c3", ["C03"], T, layer="real", checks="memsafe", unwind=5, unwindset=WL_US, timeout=2400, mem=20, covers=["cover:end"], what=W_WL + W_SH, bounds="capacity 3")
@@ -182,7 +203,7 @@ h("wl_fifo_c2", ["C03", "C01", "C12", "C13", "C14"], QT, layer="real", checks="m
 h("wm_lifecycle_c2", ["C03"], T, unwind=5, covers=["cover:end", "cover:wake_after_collection_gone"],
   what="reference model only: the collection and up to two cloned wakers die in a SYMBOLIC order (3 rounds of drop / wake_by_ref / wake), block released exactly once and only by the last owner",
   bounds="capacity 2; 3 rounds")
-for n in ("wm_fifo_c2", "wm_shape0_c2", "wm_shape1_c2", "wm_shape2_c2"):
+for n in ("wm_fifo_c2", "wm_shape0_c2", "wm_shape1_c2", "wm_shape2_c2", "wm_shape3_c2"):
     h(n, ["C03"] if "shape" in n else ["C01", "C12", "C14"], T, covers=["cover:end"] if "shape" in n else ["cover:two_slots"],
       what="the Layer W shape " + n.replace("wm_", "wl_") + " on the reference model: the model gives the same observable answers as the real list (refinement evidence for Layer U)", bounds="capacity 2")
 
